@@ -267,6 +267,35 @@ fn apply_one(p: &mut Parts, m: &Model, f: &TransportFault) -> bool {
             }
             true
         }
+        "splitter_flood" => {
+            // a long run of non-final splitter blocks (a message that never completes, or a very long one)
+            if !p.table.iter().any(|(c, _)| *c == L::CODE_SPLITTER) {
+                p.table.push((L::CODE_GECKO, 300));
+                p.table.push((L::CODE_SPLITTER, 516));
+            }
+            if p.table.iter().find(|(c, _)| *c == L::CODE_SPLITTER).map(|t| t.1) != Some(516) {
+                return false;
+            }
+            let n_blocks = *rng.pick(&[400usize, 3000, 45_000]);
+            let mut ev = vec![0u8; 517];
+            ev[0] = L::CODE_SPLITTER;
+            ev[513..515].copy_from_slice(&512u16.to_be_bytes());
+            ev[515] = if f.arg % 2 == 0 { L::CODE_GECKO } else { 0x77 };
+            ev[516] = 0;
+            let at = 1.min(p.events.len());
+            for _ in 0..n_blocks {
+                p.events.insert(at, ev.clone());
+                p.whats.insert(at, What::Gecko { last: false });
+            }
+            if f.arg % 3 == 0 {
+                // ... that does complete in the end
+                let mut last = ev.clone();
+                last[516] = 1;
+                p.events.insert(at + n_blocks, last);
+                p.whats.insert(at + n_blocks, What::Gecko { last: true });
+            }
+            true
+        }
         "splitter_edit" => {
             // find splitter blocks; if none, synthesise one (with table entries) after Game Start
             let idx: Vec<usize> = p.whats.iter().enumerate().filter(|(_, w)| matches!(w, What::Gecko { .. })).map(|(k, _)| k).collect();
@@ -342,7 +371,22 @@ fn apply_one(p: &mut Parts, m: &Model, f: &TransportFault) -> bool {
             true
         }
         "meta_edit" => {
-            match f.arg % 10 {
+            match f.arg % 12 {
+                10 | 11 => {
+                    // a length written with another integer marker than `U` (as other UBJSON writers do), with a
+                    // length whose top bit is set
+                    let marker = *rng.pick(&[b'i', b'I', b'l', b'L', b'u']);
+                    let mut t = META_KEY.to_vec();
+                    if f.arg % 12 == 10 {
+                        // as a key length
+                        t.push(marker);
+                    } else {
+                        // as a string length
+                        t.extend_from_slice(&[b'U', 1, b'a', b'S', marker]);
+                    }
+                    t.extend_from_slice(&[*rng.pick(&[0x80u8, 0xFF, 0xC0]), 0xFF, 0xFF, 0xFF, 0xFF, 0xFF, 0xFF, 0xFF, b'x', b'}', b'}']);
+                    p.tail = t;
+                }
                 0 => p.tail = deep_meta(200_000, f.at as i64),
                 1 => p.tail = deep_meta(20_000, f.at as i64),
                 2 => p.tail = deep_meta(1 + (f.at as usize % 3000), f.at as i64),
@@ -397,7 +441,13 @@ fn apply_one(p: &mut Parts, m: &Model, f: &TransportFault) -> bool {
         }
         "raw_len_edit" => {
             let actual: usize = assemble(p).len() - HEADER_LEN - p.tail.len();
-            p.raw_len_override = Some(match f.arg % 10 {
+            // where the skip-frames jump computes from: end of Game Start, and the declared Game End size
+            let after_start = (2 + 3 * p.table.len() + p.events.first().map_or(0, |e| e.len())) as u32;
+            let end_sz = p.table.iter().find(|(c, _)| *c == L::CODE_END).map_or(0, |(_, s)| *s as u32);
+            p.raw_len_override = Some(match f.arg % 13 {
+                10 => after_start + end_sz,
+                11 => after_start + end_sz + 1,
+                12 => (after_start + end_sz).saturating_sub(1 + rng.below(3) as u32),
                 0 => 0,
                 1 => (actual as u32).wrapping_add(1 + rng.below(40) as u32),
                 2 => (actual as u32).saturating_sub(1 + rng.below(40) as u32),
